@@ -500,7 +500,7 @@ class Interp:
         name = self.resolve_const(text)
         if name is not None:
             return self.run_fn(self.fns[name].parsed(), [])
-        if text.startswith('"'):
+        if text.startswith('"') or text.startswith('b"'):
             return Opaque(("str", text))
         m = re.fullmatch(r"(.*) as (\w+) \(IntToInt\)", text)
         if m:
